@@ -53,6 +53,8 @@ class HardenPyyamlCallMixin:
                     ),
                 )
             ),
+            # anything after the loader argument stays
+            *updated_node.args[2:],
         ]
         return self.update_arg_target(updated_node, new_args)
 
